@@ -405,3 +405,205 @@ pub fn bidir_scenario(ch: &mut Chooser, thorough: bool) -> Exec {
     }
     Exec { outcome: Digest::of64(&obs), violation, features: vec![] }
 }
+
+/// C13, two loss episodes on one connection, each within the budget of the segment it hits:
+/// the first `k` copies of the SYN-ACK are lost, and later the first `j` copies of the first
+/// segment the accepting side sends after the handshake (its data or its FIN). FIFO wire,
+/// one round of latency, nothing else lost. Both sides must see the other's bytes and EOF
+/// without an error, and once both have closed, every socket-table entry except the
+/// listener is reclaimed within a bounded number of rounds.
+pub fn lossy_phases_scenario(ch: &mut Chooser, _thorough: bool) -> Exec {
+    let (thr, max) = *ch.of("retx(threshold,max)", &[(2u32, 8u32), (3, 6), (2, 4)]);
+    let k: u32 = ch.choose("syn_ack_copies_lost", (max + 1) as usize) as u32;
+    let j: u32 = ch.choose("copies_of_the_acceptor's_first_segment_lost", (max + 1) as usize) as u32;
+    // each episode stays within "bounded loss": the copy that gets through is acknowledged
+    // (round trip 2 rounds plus slack) before the segment's retransmit budget runs out
+    if [k, j].iter().any(|x| (x + 1) * thr + 4 >= (max + 1) * thr) {
+        return Exec { outcome: 1, violation: None, features: vec!["skipped-outside-bounded-loss"] };
+    }
+    let s_data: usize = *ch.of("acceptor_writes_bytes_before_closing", &[0usize, 3]);
+    let client_closes_first = ch.flag("connector_shuts_down_before_reading");
+    let kc = KernelConfig::default().mtu(1500).retx_threshold(thr).retx_max(max);
+    let mut net = Net::with_config(kc);
+    let (cip, sip): (IpAddr, IpAddr) = ("10.0.0.1".parse().unwrap(), "10.0.0.2".parse().unwrap());
+    let c = net.add_host(cip);
+    let s = net.add_host(sip);
+    let hosts = [c, s];
+    let guard = net.enter();
+    #[derive(Default)]
+    struct Log {
+        c_read: Vec<u8>,
+        c_eof: bool,
+        s_eof: bool,
+        err: Vec<String>,
+        done: [bool; 2],
+    }
+    let log: Rc<RefCell<Log>> = Rc::new(RefCell::new(Log::default()));
+    let mut exec = Executor::new();
+    {
+        let log = log.clone();
+        exec.spawn(1, async move {
+            let Ok(l) = TcpListener::bind(SocketAddr::new(sip, 80)).await else { return };
+            let mut st = match l.accept().await {
+                Ok((st, _)) => st,
+                Err(e) => {
+                    log.borrow_mut().err.push(format!("accept: {}", errk(&e)));
+                    return;
+                }
+            };
+            if s_data > 0 {
+                let data: Vec<u8> = (0..s_data).map(|i| 40 + i as u8).collect();
+                if let Err(e) = st.write_all(&data).await {
+                    log.borrow_mut().err.push(format!("acceptor: write: {}", errk(&e)));
+                }
+            }
+            if let Err(e) = st.shutdown().await {
+                log.borrow_mut().err.push(format!("acceptor: shutdown: {}", errk(&e)));
+            }
+            let mut buf = [0u8; 16];
+            loop {
+                match st.read(&mut buf).await {
+                    Ok(0) => {
+                        log.borrow_mut().s_eof = true;
+                        break;
+                    }
+                    Ok(_) => {}
+                    Err(e) => {
+                        log.borrow_mut().err.push(format!("acceptor: read: {}", errk(&e)));
+                        break;
+                    }
+                }
+            }
+            drop(st);
+            log.borrow_mut().done[1] = true;
+            // the listener stays
+            std::future::pending::<()>().await;
+            drop(l);
+        });
+    }
+    {
+        let log = log.clone();
+        exec.spawn(0, async move {
+            let mut st = match TcpStream::connect(SocketAddr::new(sip, 80)).await {
+                Ok(s) => s,
+                Err(e) => {
+                    log.borrow_mut().err.push(format!("connect: {}", errk(&e)));
+                    return;
+                }
+            };
+            if client_closes_first {
+                if let Err(e) = st.shutdown().await {
+                    log.borrow_mut().err.push(format!("connector: shutdown: {}", errk(&e)));
+                }
+            }
+            let mut buf = [0u8; 16];
+            loop {
+                match st.read(&mut buf).await {
+                    Ok(0) => {
+                        log.borrow_mut().c_eof = true;
+                        break;
+                    }
+                    Ok(n) => log.borrow_mut().c_read.extend_from_slice(&buf[..n]),
+                    Err(e) => {
+                        log.borrow_mut().err.push(format!("connector: read: {}", errk(&e)));
+                        break;
+                    }
+                }
+            }
+            if !client_closes_first {
+                if let Err(e) = st.shutdown().await {
+                    log.borrow_mut().err.push(format!("connector: shutdown: {}", errk(&e)));
+                }
+            }
+            drop(st);
+            log.borrow_mut().done[0] = true;
+        });
+    }
+    let mut wire: VecDeque<(u32, turmoil_net::Packet)> = VecDeque::new();
+    let (mut lost_synack, mut lost_first) = (0u32, 0u32);
+    let mut first_seq: Option<u32> = None;
+    let budget = thr * (max + 2);
+    let horizon = 4 * budget + 60;
+    let mut closed_at: Option<u32> = None;
+    let mut reclaimed_at: Option<u32> = None;
+    let mut dropped: Vec<String> = vec![];
+    for r in 0..horizon {
+        while wire.front().map(|(t, _)| *t <= r).unwrap_or(false) {
+            let (_, p) = wire.pop_front().unwrap();
+            guard.deliver(p);
+        }
+        exec.run_until_stalled(4000, |tag| turmoil_net::set_current(hosts[tag as usize]));
+        let mut out = vec![];
+        guard.egress_all(&mut out);
+        for p in out {
+            let mut lose = false;
+            if let turmoil_net::Transport::Tcp(sg) = &p.payload {
+                if p.src == sip {
+                    if sg.flags.syn && sg.flags.ack {
+                        if lost_synack < k {
+                            lost_synack += 1;
+                            lose = true;
+                        }
+                    } else if !sg.flags.rst && (!sg.payload.is_empty() || sg.flags.fin) {
+                        let f = *first_seq.get_or_insert(sg.seq);
+                        if f == sg.seq && lost_first < j {
+                            lost_first += 1;
+                            lose = true;
+                        }
+                    }
+                }
+            }
+            if lose {
+                dropped.push(crate::wire::pkt_key(&p));
+            } else {
+                wire.push_back((r + 1, p));
+            }
+        }
+        let l = log.borrow();
+        if l.done[0] && l.done[1] && closed_at.is_none() {
+            closed_at = Some(r);
+        }
+        if closed_at.is_some() && reclaimed_at.is_none() {
+            let (cc, sc) = (turmoil_net::verif_counts(cip), turmoil_net::verif_counts(sip));
+            if cc.0 == 0 && sc.0 == 1 {
+                reclaimed_at = Some(r);
+                break;
+            }
+        }
+        if !l.err.is_empty() && wire.is_empty() && r > 3 * budget {
+            break;
+        }
+    }
+    let l = log.borrow();
+    let want: Vec<u8> = (0..s_data).map(|i| 40 + i as u8).collect();
+    let mut violation: Option<Violation> = None;
+    let losses = format!("{k} SYN-ACK copies and {j} copies of the acceptor's first segment were lost (retransmit budget {max} per segment), nothing else");
+    if !l.err.is_empty() {
+        violation = Some(Violation::new("aborted", format!("{losses}: {:?}", l.err)));
+    } else if l.c_read != want || !l.c_eof || !l.s_eof {
+        violation = Some(Violation::new(
+            "stall",
+            format!("{losses}: after {horizon} rounds the connector read {:?} of {:?} (EOF {}), the acceptor saw EOF: {}", l.c_read, want, l.c_eof, l.s_eof),
+        ));
+    } else if reclaimed_at.is_none() {
+        violation = Some(Violation::new(
+            "not-reclaimed",
+            format!(
+                "{losses}: both sides closed in round {:?}; {horizon} rounds later the socket tables hold (sockets, bindings, connections) connector {:?}, acceptor {:?} (expected nothing but the listener)",
+                closed_at,
+                turmoil_net::verif_counts(cip),
+                turmoil_net::verif_counts(sip)
+            ),
+        ));
+    }
+    drop(l);
+    drop(exec);
+    drop(guard);
+    let obs = format!("retx=({thr},{max}) k={k} j={j} s_data={s_data} client_closes_first={client_closes_first} dropped={dropped:?} closed_at={closed_at:?} reclaimed_at={reclaimed_at:?}");
+    if let Some(v) = violation.as_mut() {
+        v.sig = format!("lossy-phases|{}", v.clause);
+        v.scenario = format!("c13-lossy-phases {obs}");
+        v.actions = vec![obs.clone()];
+    }
+    Exec { outcome: Digest::of64(&obs), violation, features: vec![] }
+}
